@@ -10,7 +10,7 @@ cd $WT
 PYTHONPATH=$WT /venv/bin/python $SD/demo.py >/dev/null 2>&1; echo "demo without patch: rc=$?"
 git apply $SD/patch.diff || { echo "PATCH DOES NOT APPLY"; cd /; git -C /repo worktree remove --force $WT; exit 2; }
 PYTHONPATH=$WT /venv/bin/python $SD/demo.py >/dev/null 2>&1; echo "demo with patch: rc=$?"
-PYTHONPATH=$WT /venv/bin/python -m pytest tests -q -p no:cacheprovider --no-cov -x -q --timeout=900 --deselect tests/test_docs.py 2>&1 | tail -1
+PYTHONPATH=$WT /venv/bin/python -m pytest ${SEEDTEST_TESTS:-tests} -q -p no:cacheprovider --no-cov -x -q --timeout=900 --deselect tests/test_docs.py 2>&1 | tail -1
 cd /
 git -C /repo worktree remove --force $WT
 if [ -n "$(git -C /repo status --porcelain)" ]; then echo "/repo not clean"; exit 2; fi
